@@ -77,7 +77,6 @@ func nameAllowed(name string) bool {
 func (g *G) Component() string {
 	for i := 0; ; i++ {
 		c := g.Pick(bases, "base") + g.Pick(suffixes, "suffix")
-		c = strings.TrimRight(c, " ") // trailing blanks are outside the domain
 		if c == "" || c == "." || c == ".." || strings.HasSuffix(c, ".") && len(c) == 1 {
 			continue
 		}
@@ -270,7 +269,13 @@ func (g *G) Message(hostile bool) string {
 		return plain.Draw(g.T, "msg")
 	}
 	m := ""
-	switch g.Int(0, 7, "msgClass") {
+	switch g.Int(-3, 7, "msgClass") {
+	case -3:
+		m = g.Pick([]string{"raise coverage to 100% of cmd", "%s %d %v", "100%", "%!s(MISSING)", "50%% done", "a %[1]d b", "%"}, "percent")
+	case -2:
+		m = g.Pick([]string{`back\slash \n`, `"quoted" 'single'`, "$HOME `id` $(x)", "a;b|c&d", "<tag> & more", "{braces} [brackets]", "#hash ~tilde ^caret", "-leading dash", "--amend"}, "punct")
+	case -1:
+		m = plain.Draw(g.T, "m") + g.Pick([]string{" %", " \\", " \"", " '", " $", " !"}, "tailch")
 	case 0:
 		m = "fix: " + plain.Draw(g.T, "m")
 	case 1:
@@ -304,7 +309,7 @@ func (g *G) Email() string {
 }
 
 // BranchName draws from a small pool whose members are prefixes of each other.
-var branchPool = []string{"main", "a", "b", "a.b", "ab", "a-b", "dev", "b_1", "B", "main2", "ma", "z.9"}
+var branchPool = []string{"main", "a", "b", "a.b", "ab", "a-b", "dev", "b_1", "B", "main2", "ma", "z.9", ".wip", "b.", ".a", "_", "0"}
 
 func (g *G) BranchName() string { return g.Pick(branchPool, "branch") }
 
